@@ -153,6 +153,10 @@ contract(M + "ScenarioContainer.run", props=P + ["C03"], params={"self": "ref:Sc
          ensures=dict(RUN_ENSURES, **{
              "raising-cleanup-fails-the-element":
                  "implies(pop_raises(G_npops - 1), result == True and self._cached_status == Status.error)",
+             "an-element-whose-own-hook-failed-reports-failure-to-its-container-so-that-stop-stops-there":
+                 "implies(self.hook_failed and not runner.config.dry_run and not old(self.should_skip) and "
+                 "container_selected(runner.config.tag_expression, self), result == True and "
+                 "self._cached_status in (Status.hook_error, Status.error))",
              "status-cache-holds-nothing-computed-while-the-items-ran":
                  "self._cached_status in (Status.untested, Status.skipped, Status.hook_error, Status.error)",
          }))
@@ -205,6 +209,8 @@ contract(R + "ModelRunner.run_model", props=["C01", "C12", "C14"],
                      "implies(G_bad > old(G_bad), failed_count > 0 or self.hook_failures > 0 or "
                      "len(self._undefined_steps) > undefined_steps_initial_size)",
                  "every-feature-reported-so-far": "G_nreported == pre(G_nreported) + _i",
+                 "a-run-aborted-before-the-first-feature-runs-no-feature":
+                     "implies(pre(G_ctx_aborted), not run_feature and G_nhooks == pre(G_nhooks) and G_ncalls == pre(G_ncalls))",
              }),
              Loop(broadcast=("abs:fmt.uri", "uri")),
              Loop(broadcast=("abs:reporter.feature", "feature")),
@@ -220,6 +226,9 @@ contract(R + "ModelRunner.run_model", props=["C01", "C12", "C14"],
                  "implies(not is_none(features), G_nreported == old(G_nreported) + len(features)) and "
                  "implies(is_none(features), G_nreported == old(G_nreported) + len(old(self.features)))",
              "real-streams-restored": "sys.stdout is old(sys.stdout) and sys.stderr is old(sys.stderr)",
+             "a-failing-before_all-hook-aborts-the-run-before-any-feature-is-entered":
+                 "implies(not self.config.dry_run and has_key(self.hooks, 'before_all') and hook_raises(old(G_nhooks)), "
+                 "G_ncalls == old(G_ncalls) and G_nhooks == old(G_nhooks) + 1 + (1 if has_key(self.hooks, 'after_all') else 0))",
          })
 
 
@@ -235,14 +244,17 @@ prop("C01", level="proof", bounded=[],
 prop("C12", level="proof", bounded=[],
      explanation="run_hook containment and attribution proved (an exception in a hook never escapes, is counted, marks the "
                  "element concerned, *_all hooks abort); before/after step hooks bracket the step; no hook in dry-run or for "
-                 "de-selected scenarios; strict nesting of the whole hook log is bounded",
+                 "de-selected scenarios; a failing before_all hook aborts the run before any feature is entered (only after_all "
+                 "follows); a feature or rule whose own hook failed reports failure to its caller (so --stop stops there); "
+                 "strict nesting of the whole hook log is bounded",
      notes=_RUN_NOTES)
 prop("C15", level="other", bounded=[],
      explanation="event emission proved: Step.run emits exactly one match and one result unless quiet; Scenario.run announces every "
                  "step once in order; every emission site is a loop over all formatters (structural check); the result event "
                  "carries the step's final status; plain formatter: the queue of announced steps is empty whenever a feature, "
                  "rule, background or scenario starts; JSON formatter: header once (also for an empty report), features "
-                 "separated, footer once. JSON/plain/progress text content and JSON read-back are bounded", notes=_RUN_NOTES)
+                 "separated, footer once; a scenario's status is stored in its own element before the cursor moves to the next "
+                 "scenario or (rule) background. JSON/plain/progress text content and JSON read-back are bounded", notes=_RUN_NOTES)
 prop("C09", level="other", bounded=[],
      explanation="proved: a not-selected scenario runs no hook, calls no step function, does not fail and ends with all steps "
                  "skipped (Scenario.run); effective_tags (generic and outline override) return exactly own plus inherited tags "
